@@ -784,3 +784,67 @@ pub fn shrink_case(case: &Case, still_fails: &dyn Fn(&Case) -> bool) -> Case {
     }
     cur
 }
+
+
+/// The query clause in the form the protocol handler generates for `?rel(args)`:
+/// `__query__(_c0, A) <- rel(_c0, A), _c0 = 4` (all columns of the target relation are returned).
+pub fn handler_style_program(case: &Case) -> Program {
+    let mut p = case.prog.clone();
+    let q = p.clauses.pop().expect("query clause");
+    let Lit::Pos(goal) = &q.body[0] else { unreachable!() };
+    let mut head = Vec::new();
+    let mut args = Vec::new();
+    let mut extra = Vec::new();
+    for (i, t) in goal.args.iter().enumerate() {
+        match t {
+            T::V(v) => {
+                head.push(var_name(*v));
+                args.push(var_name(*v));
+            }
+            T::C(c) => {
+                head.push(format!("_c{i}"));
+                args.push(format!("_c{i}"));
+                extra.push(format!("_c{i} = {c}"));
+            }
+            T::W => {
+                head.push(format!("_p{i}"));
+                args.push(format!("_p{i}"));
+            }
+        }
+    }
+    let mut body = vec![format!("{}({})", goal.rel, args.join(", "))];
+    body.extend(extra);
+    // rendered through a raw clause: keep it as text in a synthetic clause name
+    p.clauses.push(Clause { head: format!("__RAW__{} <- {}", format!("__query__({})", head.join(", ")), body.join(", ")), hargs: vec![], body: vec![] });
+    p
+}
+
+pub fn handler_style_text(case: &Case) -> String {
+    let p = handler_style_program(case);
+    let n = p.clauses.len();
+    let mut lines: Vec<String> = p.clauses[..n - 1].iter().map(Clause::text).collect();
+    lines.push(p.clauses[n - 1].head.trim_start_matches("__RAW__").to_string());
+    lines.join("\n")
+}
+
+/// Reference rows for the handler-style query: full rows of the goal relation that match the
+/// goal's constants and repeated variables.
+pub fn handler_style_expected(case: &Case, model: &Model) -> BTreeSet<KRow> {
+    let q = case.prog.query();
+    let Lit::Pos(goal) = &q.body[0] else { unreachable!() };
+    model
+        .db
+        .get(&goal.rel)
+        .cloned()
+        .unwrap_or_default()
+        .into_iter()
+        .filter(|row| {
+            let mut env = BTreeMap::new();
+            goal.args.iter().zip(row).all(|(t, v)| match t {
+                T::C(c) => (*c, 0) == *v,
+                T::V(x) => *env.entry(*x).or_insert(*v) == *v,
+                T::W => true,
+            })
+        })
+        .collect()
+}
